@@ -245,7 +245,7 @@ def gen_cases(tier, rng):
                 fields = [dict(f, name=NAMES[i]) for i, f in enumerate(combo)]
                 yield {"fields": fields, "rhs": rhs, "cfg": _rand_cfg(rng)}
     # random block
-    n = 12000 if tier == "quick" else 400000
+    n = 7000 if tier == "quick" else 400000
     full = list(_field_space(reduced=False))
     for _ in range(n):
         k = rng.choice([2, 3, 3, 4])
